@@ -177,6 +177,10 @@ func (tw *timeoutWriter) writeHeaderLocked(code int) {
 			internal.Errorf(tw.req, "http: superfluous response.WriteHeader call from %s (%s:%d)",
 				caller.Function, path.Base(caller.File), caller.Line)
 		}
+	case code >= 100 && code <= 199 && code != http.StatusSwitchingProtocols:
+		// 1xx 信息性响应不是最终状态：缓冲写入器无法提前转发它，但绝不能把它当成最终状态，
+		// 否则处理器随后写入的真正状态码会被当作多余调用丢弃，客户端收到隐式的 200。
+		return
 	default:
 		tw.wroteHeader = true
 		tw.code = code
